@@ -52,6 +52,7 @@ type roundResult struct {
 	Sizes        [5]int           `json:"sizes"`
 	PeerSockets  int              `json:"peer_sockets"`
 	PeerClosed   int              `json:"peer_closed"`
+	PeerUnattrib int              `json:"peer_unattributed"`
 	LogDropped   int64            `json:"log_dropped"`
 	LateEvents   int64            `json:"late_events"`
 	Note         string           `json:"note"`
@@ -147,6 +148,7 @@ func main() {
 			r.Count("noise.sleep", rr.NoiseActs[2])
 			r.Count("peer-sockets.checked", int64(rr.PeerSockets))
 			r.Count("peer-sockets.closed-by-pool", int64(rr.PeerClosed))
+			r.Count("peer-sockets.dialled-during-shutdown(not asserted)", int64(rr.PeerUnattrib))
 			if rr.LogDropped > 0 {
 				r.Inconclusive(fmt.Sprintf("round %d: callback log overflowed (%d events dropped)", rr.Round, rr.LogDropped))
 			}
@@ -365,7 +367,7 @@ func main() {
 	r.Finish("each round is a seeded plan (goroutine count, operation mix, peer behaviours, Shutdown point: mid-flight / right after start / while Run is starting / after the workers); distinct = distinct orders in which the verifPoint schedule points were reached",
 		"the race detector only reports races that occur on the schedules actually executed",
 		"schedule noise is seeded but the Go scheduler and the kernel are not: a seed fixes the plan, not the interleaving",
-		"a wall-clock watchdog (120 s per round, typical round < 1 s) only collects goroutine dumps; 'hang' needs two identical all-blocked dumps 4 s apart",
+		"a wall-clock watchdog (120 s per round, 30 s once only Shutdown/Run are awaited; typical round < 1 s) only collects goroutine dumps; 'hang' needs two identical all-blocked dumps 4 s apart",
 		"peer sockets are given 10 s after Shutdown returned to observe EOF/reset")
 }
 
